@@ -434,6 +434,17 @@ func (s *Sched) Blocked() []string {
 	return r
 }
 
+// Quiescent: no thread can take a step (armed timers aside).
+func (s *Sched) Quiescent() bool {
+	s.waitParked()
+	for _, x := range s.enabled() {
+		if x.t != nil {
+			return false
+		}
+	}
+	return true
+}
+
 func (s *Sched) ArmedTimers() int {
 	n := 0
 	for _, t := range s.Timers {
